@@ -93,6 +93,7 @@ func genValueAsFunctionWrapper(n *node) func(*frame) reflect.Value {
 }
 
 func genValueAs(n *node, t reflect.Type) func(*frame) reflect.Value {
+	convertConstantValueTo(n, t)
 	value := genValue(n)
 
 	return func(f *frame) reflect.Value {
